@@ -44,8 +44,13 @@ def run_prop(prop, tier, scratch, t0, extra=None):
     n_std, n_gen = cf["quick"] if quick else cf["thorough"]
     batches = D.build_batches(scratch, cf["versions"], tier, prop, n_stdlib=n_std, n_gen=n_gen,
                               batch=10 if quick else 30, focus=cf["focus"])
+    if prop in ("C02", "C04"):
+        # workload B: synthetic co_code with 1-3 EXTENDED_ARG prefixes and long forward jumps, built by V itself
+        batches += D.synthetic_code_batches(scratch, cf["versions"], 60 if quick else 1500, prop)
     D.run_diff(res, batches, cf["sections"], [prop],
                max_code=cf["max_code_quick"] if quick else cf["max_code_thorough"])
+    if prop in ("C02", "C04", "C05"):
+        D.corpus_invariants(res, scratch, [prop], tier)
     if extra:
         extra(res, tier, scratch)
     return K.finish(res, tier, "exploration", cf["rule"], t0,
